@@ -98,6 +98,8 @@ type loopInfo struct {
 }
 
 type funcTrans struct {
+	varargBefore map[ssa.Value]string // one-element varargs arrays: element heap symbol before the array was allocated
+	pureCache map[string]*Val // results of pure calls by (callee, arguments, heap versions)
 	w        *World
 	p        *Program
 	fn       *ssa.Function
